@@ -127,9 +127,28 @@ def rep_algebra(d: int = 3, graded: bool = False, extra_attrs=None, extra_method
             raise Raised("KeyError")
         return tuple(b for n, b in c2b.items() if len(n) - 1 == g)
 
+    def table(getitem):
+        # the read-only dict protocol of a precomputed table: [], get, in
+        def get(key, default=None):
+            try:
+                return getitem(key)
+            except Raised as r_:
+                if r_.name == "KeyError":
+                    return default
+                raise
+
+        def contains(key):
+            try:
+                getitem(key)
+                return True
+            except Raised as r_:
+                if r_.name == "KeyError":
+                    return False
+                raise
+        return Obj("dict", {}, {"get": get, "__contains__": contains}, getitem=getitem)
     attrs = {"canon2bin": c2b, "bin2canon": b2c, "d": d, "graded": graded, "r": r, "p": d - r, "q": 0,
-             "indices_for_grades": Obj("dict", getitem=indices_for_grades),
-             "indices_for_grade": Obj("dict", getitem=indices_for_grade),
+             "indices_for_grades": table(indices_for_grades),
+             "indices_for_grade": table(indices_for_grade),
              "codegen_symbolcls": None, "wrapper": None, "basis": list(basis) if basis else [], "cse": True}
     attrs.update(extra_attrs or {})
     methods = {"_blade2canon": blade2canon, "__len__": lambda: 2 ** d}
@@ -138,6 +157,7 @@ def rep_algebra(d: int = 3, graded: bool = False, extra_attrs=None, extra_method
 
 
 from .absint import Raised  # noqa: E402
+from .astx import NoValue  # noqa: E402
 
 
 class Val:
@@ -166,6 +186,184 @@ def val_repr(v):
 
 def mv_obj(algebra, keys, values, kind="MultiVector") -> Obj:
     return Obj(kind, {"algebra": algebra, "_keys": keys, "_values": values})
+
+
+# --------------------------------------------------------------------------- N-dimensional array of symbolic coefficients
+def _nested(name, shape, prefix=()):
+    if not shape:
+        return Val(f"{name}[{','.join(map(str, prefix))}]")
+    return [_nested(name, shape[1:], prefix + (i,)) for i in range(shape[0])]
+
+
+def _shape_of(nested):
+    sh = []
+    while isinstance(nested, list):
+        sh.append(len(nested))
+        nested = nested[0] if nested else None
+    return tuple(sh)
+
+
+def _basic_index(nested, idx, ndim):
+    """numpy's basic indexing (ints, slices, Ellipsis, None is not supported; one list = fancy index of that axis) on nested lists."""
+    if not isinstance(idx, tuple):
+        idx = (idx,)
+    if sum(1 for i in idx if i is Ellipsis) > 1:
+        raise NoValue("two ellipses in an index")
+    if any(i is Ellipsis for i in idx):
+        k = next(n for n, i in enumerate(idx) if i is Ellipsis)
+        idx = idx[:k] + (slice(None),) * (ndim - (len(idx) - 1)) + idx[k + 1:]
+    if len(idx) > ndim:
+        raise Raised("IndexError")
+
+    def rec(node, rest):
+        if not rest:
+            return node
+        i, tail = rest[0], rest[1:]
+        if isinstance(i, bool) or i is None:
+            raise NoValue(f"index {i!r}")
+        if isinstance(i, int):
+            if not -len(node) <= i < len(node):
+                raise Raised("IndexError")
+            return rec(node[i], tail)
+        if isinstance(i, slice):
+            return [rec(x, tail) for x in node[i]]
+        if isinstance(i, (list, tuple)) and all(isinstance(j, int) and not isinstance(j, bool) for j in i):
+            return [rec(node[j], tail) for j in i]
+        raise NoValue(f"index {i!r}")
+    return rec(nested, idx)
+
+
+def symarray(name, shape, dtype="float64", _leaves=None):
+    """ONE ndarray holding symbolic coefficients `name[i,j,..]`: shape, ndim, dtype, basic indexing (sub-arrays are read-only
+    copies - enough for code that reads), iteration over the leading axis, len, tolist, copy, assignment into the array itself."""
+    leaves = _nested(name, tuple(shape)) if _leaves is None else _leaves
+    shape = _shape_of(leaves)
+    o = Obj("ndarray", {"fmt": f"{name}{list(shape)}", "shape": shape, "ndim": len(shape), "dtype": Obj("dtype", {"name": dtype, "fmt": dtype, "of_user_array": _leaves is None}),
+                        "size": 0, "leaves": leaves, "sym_name": name})
+
+    def wrap(x, label):
+        return symarray(label, (), dtype, _leaves=x) if isinstance(x, list) else x
+
+    def getitem(idx):
+        return wrap(_basic_index(leaves, idx, len(shape)), f"{name}[{idx!r}]")
+    o.getitem = getitem
+
+    def setitem(idx, value):
+        target = _basic_index(_nested("@", shape), idx, len(shape))      # positions addressed, as '@[i,j]' tokens
+
+        def src(v):
+            if isinstance(v, Obj) and v.kind == "ndarray" and "leaves" in v.attrs:
+                return v.attrs["leaves"]
+            return [src(x) for x in v] if isinstance(v, (list, tuple)) else v
+        value = src(value)
+
+        def put(t, v):
+            if isinstance(t, list):
+                if isinstance(v, list):
+                    tsh, vsh = _shape_of(t), _shape_of(v)
+                    if len(vsh) < len(tsh):
+                        for x in t:
+                            put(x, v)                      # numpy aligns TRAILING axes
+                        return
+                    if len(v) == 1 and len(t) != 1:
+                        v = v * len(t)
+                    if len(v) != len(t):
+                        raise Raised("ValueError")
+                    for x, y in zip(t, v):
+                        put(x, y)
+                else:
+                    for x in t:
+                        put(x, v)
+                return
+            pos = tuple(int(n) for n in t.attrs["name"][2:-1].split(",") if n != "")
+            node = leaves
+            for n in pos[:-1]:
+                node = node[n]
+            node[pos[-1]] = v
+        put(target, value)
+    o.methods.update({
+        "setitem": setitem, "__len__": lambda: shape[0] if shape else (_ for _ in ()).throw(Raised("TypeError")),
+        "__iter__": lambda: [getitem(i) for i in range(shape[0])], "tolist": lambda: leaves,
+        "copy": lambda *a, **k: symarray(name, (), dtype, _leaves=_copy_nested(leaves)),
+        "tobytes": lambda *a, **k: Obj("bytes", {"dtype": dtype, "names": tuple(_flat_names(leaves)), "fmt": f"bytes<{dtype}>{_flat_names(leaves)}"}),
+        "astype": lambda t, *a, **k: symarray(name, (), _dtype_text(t), _leaves=_copy_nested(leaves)),
+    })
+    return o
+
+
+def _flat_names(x):
+    if isinstance(x, list):
+        return [n for y in x for n in _flat_names(y)]
+    return [val_repr(x) if isinstance(x, Obj) else x]
+
+
+def _dtype_text(t):
+    if isinstance(t, str):
+        return {"float": "float64", "double": "float64", "f8": "float64", "<f8": "float64", "d": "float64"}.get(t, t)
+    if isinstance(t, Obj) and t.kind == "dtype":
+        return t.attrs["name"]
+    if getattr(t, "name", None) == "float":
+        return "float64"
+    if getattr(t, "name", None) == "int":
+        return "int64"
+    raise NoValue(f"element type {t!r}")
+
+
+def numpy_alloc_standin(extra=None):
+    """numpy as far as allocating goes: zeros / empty / ones (and the *_like forms).  An array allocated WITHOUT an element type (or
+    with a fixed one) is a float64 (resp. that type's) array whatever is written into it later: `narrowed` records the first write of
+    coefficients of a user's array into such an array - complex, object (Fraction, sympy) and integer coefficients are cast."""
+    def alloc(shape, dtype=None, *a, **k):
+        if isinstance(shape, int):
+            shape = (shape,)
+        shape = tuple(shape)
+        if not all(isinstance(n, int) for n in shape):
+            raise NoValue(f"allocation of shape {shape!r}")
+        leaves = _fill(shape)
+        o = symarray("Z", (), "float64" if dtype is None else str(dtype), _leaves=leaves)
+        o.attrs["allocated"] = "no element type given (float64)" if dtype is None else f"element type {dtype}"
+        inner = o.methods["setitem"]
+
+        def setitem(idx, value, o=o, inner=inner):
+            def user(v):
+                if isinstance(v, Obj) and v.kind == "ndarray" and "leaves" in v.attrs:
+                    return "allocated" not in v.attrs
+                if isinstance(v, (list, tuple)):
+                    return any(user(x) for x in v)
+                return isinstance(v, Obj) and v.kind == "value"
+            if user(value) and not (isinstance(dtype, Obj) and dtype.attrs.get("of_user_array")):
+                o.attrs["narrowed"] = True
+            return inner(idx, value)
+        o.methods["setitem"] = setitem
+        return o
+
+    def like(x, dtype=None, *a, **k):
+        if not (isinstance(x, Obj) and x.kind == "ndarray"):
+            raise NoValue("*_like of a non-array")
+        return alloc(x.attrs["shape"], dtype if dtype is not None else Obj("dtype", {"name": "user", "fmt": "user dtype", "of_user_array": True}))
+    table = {"ndarray": ClassRef("ndarray")}
+    for n in ("zeros", "empty", "ones"):
+        table[n] = PyFunc(alloc, f"np.{n}", True)
+        table[n + "_like"] = PyFunc(like, f"np.{n}_like", True)
+    table.update(extra or {})
+    return Obj("module:numpy", table)
+
+
+def _fill(shape):
+    return 0 if not shape else [_fill(shape[1:]) for _ in range(shape[0])]
+
+
+def _copy_nested(x):
+    return [_copy_nested(y) for y in x] if isinstance(x, list) else x
+
+
+def symarray_values(v):
+    """Nested list of printable coefficient names of a symarray / list of rows / leaf."""
+    if isinstance(v, Obj) and v.kind == "ndarray" and "leaves" in v.attrs:
+        return symarray_values(v.attrs["leaves"])
+    if isinstance(v, (list, tuple)):
+        return [symarray_values(x) for x in v]
+    return val_repr(v) if isinstance(v, Obj) else v
 
 
 # --------------------------------------------------------------------------- tree mode (operator trees over whole multivectors)
